@@ -261,9 +261,38 @@ static void run_raw_case(uint64_t seed, unsigned long icase, const std::string& 
     int nb_when = (int)vrng_below(&g, 3); // closed 0: right after this device started, 1: in the middle of the appends, 2: after the cycle
     struct Storage* nb = 0;
     int nb_lock_fd = -1;
-    auto nb_close = [&]() { if (nb) { vbuf_printf(&g_log, "neighbour-close "); storage_close(nb); nb = 0; } };
+    // ... or a neighbour that has finished an acquisition of its own (its descriptor number is free again) and is
+    // then handed one more packet although it is stopped: the packet must be refused, not written anywhere.
+    int nb_kind = (int)vrng_below(&g, 2);
+    std::vector<uint8_t> nbuf; std::vector<FrameSpec> nspecs; std::string nb_path;
+    auto nb_close = [&]() {
+        if (!nb) return;
+        if (nb_kind == 1 && !nspecs.empty()) {
+            vbuf_printf(&g_log, "neighbour-late-append ");
+            const uint8_t* beg = nbuf.data() + nspecs[0].off; const uint8_t* end = beg + nspecs[0].nbytes;
+            storage_append(nb, (const struct VideoFrame*)beg, (const struct VideoFrame*)end); // refused (the device is stopped)
+            nspecs.clear();
+            return; // closed at the end of the case
+        }
+        vbuf_printf(&g_log, "neighbour-close "); storage_close(nb); nb = 0;
+    };
     for (int cy = 0; cy < ncycles && !g_case_violated; ++cy) {
-        if (cy == nb_cycle) {
+        if (cy == nb_cycle && nb_kind == 1) {
+            nb_path = dir + "/nb_" + std::to_string(icase) + ".raw";
+            if ((nb = open_device(BasicDevice_Storage_Raw))) {
+                struct StorageProperties props; memset(&props, 0, sizeof props);
+                struct PixelScale ps = { 1, 1 };
+                storage_properties_init(&props, 0, nb_path.c_str(), nb_path.size() + 1, 0, 0, ps, 0);
+                storage_set(nb, &props);
+                storage_properties_destroy(&props);
+                build_frames(&g, nbuf, nspecs, (int)vrng_range(&g, 1, 6), false, (uint32_t)vrng_range(&g, 1, 32), (uint32_t)vrng_range(&g, 1, 16), SampleType_u8, 0);
+                vbuf_printf(&g_log, "| neighbour acquisition of %zu frames ", nspecs.size());
+                if (storage_start(nb) != Device_Ok || !append_in_packets(nb, &g, nbuf, nspecs) || storage_stop(nb) != Device_Ok)
+                    violation("C14", "append-failed", "the neighbouring device's own acquisition failed");
+                ++C.neighbours;
+            }
+        }
+        if (cy == nb_cycle && nb_kind == 0) {
             std::string lp = dir + "/locked_" + std::to_string(icase) + ".raw";
             int lfd = __real_open(lp.c_str(), O_RDWR | O_CREAT, 0666);
             if (lfd >= 0 && __real_flock(lfd, LOCK_EX | LOCK_NB) == 0 && (nb = open_device(BasicDevice_Storage_Raw))) {
@@ -321,9 +350,16 @@ static void run_raw_case(uint64_t seed, unsigned long icase, const std::string& 
             violation("C14", "raw-content-mismatch", "cycle %d: first differing byte at offset %zu of %zu", cy, k, buf.size());
         }
         unlink(real.c_str());
-        sig = vhash_add(sig, (uint64_t)nframes * 7 + (uint64_t)uri[0] + (cy == nb_cycle ? 1000u + (unsigned)nb_when : 0u));
+        sig = vhash_add(sig, (uint64_t)nframes * 7 + (uint64_t)uri[0] + (cy == nb_cycle ? 1000u + (unsigned)nb_when + 10u * (unsigned)nb_kind : 0u));
     }
     nb_close();
+    if (nb) { storage_close(nb); nb = 0; }
+    if (nb_kind == 1 && !nb_path.empty() && !g_case_violated) {
+        std::vector<uint8_t> got;
+        if (!read_file(nb_path, got) || got.size() != nbuf.size() || (nbuf.size() && memcmp(got.data(), nbuf.data(), nbuf.size()) != 0))
+            violation("C14", "raw-content-mismatch", "the neighbouring device's file (%zu bytes) is not what was appended to it before it was stopped (%zu bytes)", got.size(), nbuf.size());
+    }
+    if (!nb_path.empty()) unlink(nb_path.c_str());
     if (nb_lock_fd >= 0) __real_close(nb_lock_fd);
     storage_close(st);
     if (!IO.owned->empty() && !g_case_violated) { violation("C16", "descriptor-left-open", "%zu descriptor(s) still open after device close", IO.owned->size()); }
